@@ -246,7 +246,7 @@ pub fn run(rep: &mut Report) {
         }
         Tier::Thorough => {
             gen_sections::<P16E1>(rep, 2_000_000, 1_000_000, 1_000_000);
-            gen_sections::<P32E2>(rep, 12_000_000, 6_000_000, 6_000_000);
+            gen_sections::<P32E2>(rep, 40_000_000, 20_000_000, 20_000_000);
             rep.exhaustive("P16E1 all 2^32 pairs x 4 ops (fast oracle)", 1 << 32, |i, l| pair_fast::<P16E1>(i >> 16, i & 0xffff, l));
         }
     }
